@@ -28,10 +28,9 @@ extern "C" void w_mat(R* rowvals, int* rowidxs, int* rowsize, R* colvals, int* c
    lp._isScaled = *isScaled; lp.nr = nr; lp.nc = nc;
    lp.LPColSetBase<R>::scaleExp.data = colexp; lp.LPColSetBase<R>::scaleExp.thesize = nc;
    lp.LPRowSetBase<R>::scaleExp.data = rowexp; lp.LPRowSetBase<R>::scaleExp.thesize = nr;
-   lp.low.val = low; lp.low.dimen = nc; lp.up.val = up; lp.up.dimen = nc;
-   lp.LPColSetBase<R>::object.val = obj; lp.LPColSetBase<R>::object.dimen = nc;
-   lp.left.val = lhs; lp.left.dimen = nr; lp.right.val = rhs; lp.right.dimen = nr;
-   lp.LPRowSetBase<R>::object.val = rowobj; lp.LPRowSetBase<R>::object.dimen = nr;
+   lp.bind();
+   lp.sh.low.val = low; lp.sh.low.dimen = nc; lp.sh.up.val = up; lp.sh.up.dimen = nc; lp.sh.obj.val = obj; lp.sh.obj.dimen = nc;
+   lp.sh.left.val = lhs; lp.sh.left.dimen = nr; lp.sh.right.val = rhs; lp.sh.right.dimen = nr; lp.sh.robj.val = rowobj; lp.sh.robj.dimen = nr;
    lp.rowvals = rowvals; lp.rowidxs = rowidxs; lp.rowsize = rowsize;
    lp.colvals = colvals; lp.colidxs = colidxs; lp.colsize = colsize;
    gp_rowvals = rowvals; gp_colvals = colvals; gp_lhs = lhs; gp_rhs = rhs; gp_rowobj = rowobj;
